@@ -8,34 +8,32 @@ import Splipy.Lemmas.C17Equiv
 
 set_option linter.unusedSectionVars false
 
-namespace Splipy.MP
+namespace Splipy.MP.C18L
 
 variable {α β : Type}
 
 /-! ## arrays -/
 
-/-- flat data has the size of the shape -/
-def NdArr.WF (a : NdArr α) : Prop := a.data.size = shapeSize a.shape
 
-theorem NdArr.ofFn_shape (s : List ℕ) (g : List ℕ → α) : (NdArr.ofFn s g).shape = s := rfl
+theorem ndOfFn_shape (s : List ℕ) (g : List ℕ → α) : (NdArr.ofFn s g).shape = s := rfl
 
-theorem NdArr.ofFn_wf (s : List ℕ) (g : List ℕ → α) : (NdArr.ofFn s g).WF := by
-  simp [NdArr.WF, NdArr.ofFn]
+theorem ndOfFn_wf (s : List ℕ) (g : List ℕ → α) : (NdArr.ofFn s g).SizeOK := by
+  simp [NdArr.SizeOK, NdArr.ofFn]
 
-theorem NdArr.ofFn_size (s : List ℕ) (g : List ℕ → α) : (NdArr.ofFn s g).data.size = shapeSize s := by
+theorem ndOfFn_size (s : List ℕ) (g : List ℕ → α) : (NdArr.ofFn s g).data.size = shapeSize s := by
   simp [NdArr.ofFn]
 
-theorem NdArr.ofFn_getD [Inhabited α] (s : List ℕ) (g : List ℕ → α) {q : ℕ} (hq : q < shapeSize s) :
+theorem ndOfFn_getD [Inhabited α] (s : List ℕ) (g : List ℕ → α) {q : ℕ} (hq : q < shapeSize s) :
     (NdArr.ofFn s g).data.getD q default = g (unravel s q) := by
   simp [NdArr.ofFn, Array.getD, hq]
 
-theorem NdArr.mem_ofFn (s : List ℕ) (g : List ℕ → α) {x : α} (hx : x ∈ (NdArr.ofFn s g).data.toList) :
+theorem ndMem_ofFn (s : List ℕ) (g : List ℕ → α) {x : α} (hx : x ∈ (NdArr.ofFn s g).data.toList) :
     ∃ i, x = g i := by
   simp only [NdArr.ofFn, Array.mem_toList_iff, Array.mem_ofFn] at hx
   obtain ⟨i, hi⟩ := hx
   exact ⟨_, hi.symm⟩
 
-theorem NdArr.get_mem [Inhabited α] (a : NdArr α) (idx : List ℕ) :
+theorem ndGet_mem [Inhabited α] (a : NdArr α) (idx : List ℕ) :
     a.get idx = default ∨ a.get idx ∈ a.data.toList := by
   unfold NdArr.get
   by_cases h : ravel a.shape idx < a.data.size
@@ -47,7 +45,7 @@ theorem NdArr.get_mem [Inhabited α] (a : NdArr α) (idx : List ℕ) :
     rfl
 
 /-- for a well-formed array, the entry at the multi-index of the flat position `q` is `data[q]` -/
-theorem NdArr.get_unravel [Inhabited α] (a : NdArr α) {q : ℕ} (hq : q < shapeSize a.shape) :
+theorem ndGet_unravel [Inhabited α] (a : NdArr α) {q : ℕ} (hq : q < shapeSize a.shape) :
     a.get (unravel a.shape q) = a.data.getD q default := by
   unfold NdArr.get
   rw [ravel_unravel hq]
@@ -56,8 +54,8 @@ theorem NdArr.get_unravel [Inhabited α] (a : NdArr α) {q : ℕ} (hq : q < shap
 
 theorem apply_entries [Inhabited α] (r : Reindex) (a : NdArr α) {x : α}
     (hx : x ∈ (r.apply a).data.toList) : x = default ∨ x ∈ a.data.toList := by
-  obtain ⟨i, rfl⟩ := NdArr.mem_ofFn _ _ hx
-  exact a.get_mem _
+  obtain ⟨i, rfl⟩ := ndMem_ofFn _ _ hx
+  exact ndGet_mem a _
 
 theorem resolveView_entries [Inhabited α] (A : Array (NdArr α)) (v : CpView) {x : α}
     (hx : x ∈ (resolveView A v).data.toList) : x = default ∨ x ∈ (A.getD v.top default).data.toList := by
@@ -75,12 +73,12 @@ theorem resolveView_entries [Inhabited α] (A : Array (NdArr α)) (v : CpView) {
 theorem setSect_entries [Inhabited α] (a vals : NdArr α) (sec : Sec) {x : α}
     (hx : x ∈ (a.setSect sec vals).data.toList) :
     x = default ∨ x ∈ vals.data.toList ∨ x ∈ a.data.toList := by
-  obtain ⟨i, rfl⟩ := NdArr.mem_ofFn _ _ hx
+  obtain ⟨i, rfl⟩ := ndMem_ofFn _ _ hx
   split
-  · rcases vals.get_mem (projectSection sec i) with h | h
+  · rcases ndGet_mem vals (projectSection sec i) with h | h
     · exact Or.inl h
     · exact Or.inr (Or.inl h)
-  · rcases a.get_mem i with h | h
+  · rcases ndGet_mem a i with h | h
     · exact Or.inl h
     · exact Or.inr (Or.inr h)
 
@@ -180,7 +178,7 @@ section Naturality
 variable [Inhabited α] [Inhabited β] (f : α → β) (hf : f default = default)
 include hf
 
-theorem NdArr.get_map (a : NdArr α) (idx : List ℕ) : (a.map f).get idx = f (a.get idx) := by
+theorem ndGet_map (a : NdArr α) (idx : List ℕ) : (a.map f).get idx = f (a.get idx) := by
   unfold NdArr.get NdArr.map
   simp only [Array.getD_eq_getD_getElem?, Array.getElem?_map]
   cases a.data[ravel a.shape idx]? with
@@ -188,18 +186,18 @@ theorem NdArr.get_map (a : NdArr α) (idx : List ℕ) : (a.map f).get idx = f (a
   | some v => rfl
 
 omit hf [Inhabited α] [Inhabited β] in
-theorem NdArr.ofFn_map (s : List ℕ) (g : List ℕ → α) : (NdArr.ofFn s g).map f = NdArr.ofFn s (fun i => f (g i)) := by
+theorem ndOfFn_map (s : List ℕ) (g : List ℕ → α) : (NdArr.ofFn s g).map f = NdArr.ofFn s (fun i => f (g i)) := by
   simp only [NdArr.ofFn, NdArr.map, Array.map_ofFn]
   rfl
 
 theorem apply_map (r : Reindex) (a : NdArr α) : r.apply (a.map f) = (r.apply a).map f := by
   unfold Reindex.apply
-  rw [NdArr.ofFn_map]
+  rw [ndOfFn_map]
   have hs : (a.map f).shape = a.shape := rfl
   rw [hs]
   congr 1
   funext i
-  exact NdArr.get_map f hf a _
+  exact ndGet_map f hf a _
 
 omit hf [Inhabited α] in
 theorem default_map : (default : NdArr α).map f = (default : NdArr β) := by
@@ -230,14 +228,14 @@ theorem resolveView_map (A : Array (NdArr α)) (v : CpView) :
 theorem setSect_map (a vals : NdArr α) (sec : Sec) :
     (a.map f).setSect sec (vals.map f) = (a.setSect sec vals).map f := by
   unfold NdArr.setSect
-  rw [NdArr.ofFn_map]
+  rw [ndOfFn_map]
   have hs : (a.map f).shape = a.shape := rfl
   rw [hs]
   congr 1
   funext i
   split
-  · exact NdArr.get_map f hf _ _
-  · exact NdArr.get_map f hf _ _
+  · exact ndGet_map f hf _ _
+  · exact ndGet_map f hf _ _
 
 theorem readFace_map (k : ℕ) (A : Array (NdArr α)) (fl : FaceLink) :
     readFace k (A.map (NdArr.map f)) fl = (readFace k A fl).map (fun B => B.map (NdArr.map f)) := by
@@ -394,4 +392,4 @@ theorem readAll_ok : ∀ (l : List (PatchPlan × ℕ)) (A B : Array (NdArr ℤ))
       rw [(readOne_ok hA').1]
       exact readAll_ok l A' B h
 
-end Splipy.MP
+end Splipy.MP.C18L
